@@ -1277,6 +1277,31 @@ fn pi_multiple(lay: Lay, k: i64, dlog: u32) -> Option<u128> {
     Some(from_sign_mag(lay, k < 0, mag))
 }
 
+/// SYSTEMATIC block at the EDGE of tan's stated domain (|x| <= 100 and |tan x| <= 64): for every pole (2k+1) pi/2 inside
+/// |x| <= 100 and on both sides of it, the angles pole -+ (1/64 + j 2^-22), j = -8..=16, i.e. true tangents from ~64.003 (just
+/// outside, not judged) down to ~63.979 in steps of ~0.001.  A guard that treats "close to a pole" as "outside the domain" with a
+/// slightly wrong threshold shows only in this sliver (seeded change C16-G: 1.2e-6 of random angles).
+pub fn tan_edge_block(lay: Lay) -> Vec<u128> {
+    let mut out = Vec::new();
+    if lay.f < 22 || !lay.signed {
+        return out;
+    }
+    let one = 1u128 << lay.f;
+    for k in -32i64..=31 {
+        let base = match pi_multiple(lay, 2 * k + 1, 1) {
+            Some(b) => b,
+            None => continue,
+        };
+        for j in -8i64..=16 {
+            let step = (one >> 22) * j.unsigned_abs() as u128;
+            let delta = if j < 0 { (one >> 6) - step } else { (one >> 6) + step };
+            out.push(base.wrapping_add(delta) & lay.mask());
+            out.push(base.wrapping_sub(delta) & lay.mask());
+        }
+    }
+    out
+}
+
 /// value v (integer) * 2^e as raw bits of lay, if it fits
 pub fn pow2_bits(lay: Lay, neg: bool, m: u128, e: i32) -> Option<u128> {
     let sh = e + lay.f as i32;
